@@ -42,12 +42,14 @@ type c13EntryObs struct {
 }
 
 type c13Logical struct {
-	Chunked bool        `json:"chunked"`
-	Method  string      `json:"method"`
-	Scheme  string      `json:"scheme"`
-	Host    string      `json:"host"`
-	Path    string      `json:"path"`
-	Query   string      `json:"query"`
+	Chunked bool   `json:"chunked"`
+	Method  string `json:"method"`
+	Scheme  string `json:"scheme"`
+	Host    string `json:"host"`
+	Path    string `json:"path"`
+	Query   string `json:"query"`
+	// BareQ: the request target ends in a question mark with nothing behind it (an empty query)
+	BareQ   bool        `json:"bareq,omitempty"`
 	Headers [][2]string `json:"headers"`
 	Body    string      `json:"body"`
 }
@@ -242,10 +244,12 @@ func c13Cmd(args []string) error {
 
 	pick := func(s []string) string { return s[rng.Intn(len(s))] }
 	// "1+1=2": sub-delimiters of a path segment are literal (a '+' is no blank outside a query)
-	ids := []string{"42", "forbidden", "a%5Bb%5D", "x~y", "%7Euser", "a%2Fb", "1+1=2", "a%2Bb+c"}
+	ids := []string{"42", "forbidden", "a%5Bb%5D", "x~y", "%7Euser", "a%2Fb", "1+1=2", "a%2Bb+c", "r%2541", "50%25"}
 	decoded := map[string]string{
 		"42": "42", "forbidden": "forbidden", "a%5Bb%5D": "a[b]", "x~y": "x~y", "%7Euser": "~user", "a%2Fb": "a/b",
 		"1+1=2": "1+1=2", "a%2Bb+c": "a+b+c",
+		// an encoded percent sign: decoding the value a second time would turn "r%41" into "rA"
+		"r%2541": "r%41", "50%25": "50%",
 	}
 
 	for i := 0; i < *n; i++ {
@@ -258,7 +262,7 @@ func c13Cmd(args []string) error {
 
 		switch rng.Intn(3) {
 		case 0:
-			rest := pick([]string{"one", "one/two", "x/%5By%5D/z", "p+q/r"})
+			rest := pick([]string{"one", "one/two", "x/%5By%5D/z", "p+q/r", "%2520/z"})
 			path = "/api/" + id + "/items/" + rest
 			r, _ := url.PathUnescape(rest)
 			caps = map[string]string{"id": decoded[id], "rest": r}
@@ -266,7 +270,7 @@ func c13Cmd(args []string) error {
 			path = "/api/" + id
 			caps = map[string]string{"id": decoded[id]}
 		default:
-			name := pick([]string{"report.pdf", "a%20b.txt", "c+d.txt"})
+			name := pick([]string{"report.pdf", "a%20b.txt", "c+d.txt", "x%252Fy.txt"})
 			path = "/files/" + id + "/" + name
 			nm, _ := url.PathUnescape(name)
 			caps = map[string]string{"id": decoded[id], "name": nm}
@@ -357,6 +361,7 @@ func c13Cmd(args []string) error {
 			Logical: c13Logical{
 				Method: method, Scheme: scheme, Host: host, Path: path, Query: query, Headers: hdrs, Body: string(body),
 				Chunked: len(body) > 0 && rng.Intn(3) == 0,
+				BareQ:   query == "" && i%2 == 0,
 			},
 			Canon: c13View{
 				Method: method, Scheme: scheme, Host: host, Path: p, Query: canonQuery(query),
@@ -437,6 +442,10 @@ func c13Exec(beds map[string]*client.Client, c *c13Case) error {
 	}
 
 	c.Obs = map[string]c13EntryObs{}
+
+	if l.BareQ && query == "" {
+		path += "?"
+	}
 
 	for _, entry := range []string{"decision", "envoy", "envoy_split", "proxy"} {
 		var (
